@@ -210,13 +210,14 @@ def main():
         if level != 'proof': cov['evaluations'] = 1; cov['distinct_nontrivial'] = 0
     ev = dict(property_id=prop, tier=tier, seed=seed, level=level, coverage=cov, assumptions=ASSUMPTIONS + cfg.get('assumptions', []),
               wall_s=round(time.time() - t0, 2), violations=len(violations))
-    json.dump(ev, open(os.path.join(ROOT, 'evidence', prop + '.json'), 'w'), indent=1, default=str)
+    ev_dir = os.path.join(ROOT, 'evidence') if os.path.realpath(REPO) == '/repo' else REPO      # scratch-copy runs (self-tests) do not overwrite the evidence
+    json.dump(ev, open(os.path.join(ev_dir, prop + '.json'), 'w'), indent=1, default=str)
     # ------------------------------------------------------------------ report
     for line in known_lines: print(line)
     print('%s tier=%s: P %d/%d obligations discharged over %d functions (%.1fs solver); R %d evaluations (%d distinct) in %d modules; %.1fs'
           % (prop, tier, n_dis, n_obl, len(pres), solver_time, evals, distinct, len(rres), time.time() - t0))
     if violations:
-        for path, suffix in violations: print('VIOLATION property=%s replay=%s%s' % (prop, path, suffix))
+        for path, suffix in violations[:6]: print('VIOLATION property=%s replay=%s%s' % (prop, path, suffix))
         sys.exit(1)
     if broken:
         for b in broken: print('CHECKER-BROKEN: ' + b)
